@@ -72,9 +72,10 @@ def build_specs(basic_nodes: dict, basic_marks: dict, list_nodes: dict) -> dict:
 
     # Z8 table-like
     n = _strip(ln)
-    n["table"] = {"content": "row+", "isolating": True, "group": "block"}
-    n["row"] = {"content": "cell+"}
-    n["cell"] = {"content": "block+", "isolating": True}
+    n["table"] = {"content": "row+", "isolating": True, "group": "block", "parseDOM": [{"tag": "table"}],
+                  "toDOM": lambda _n: ["table", ["tbody", 0]]}
+    n["row"] = {"content": "cell+", "parseDOM": [{"tag": "tr"}], "toDOM": lambda _n: ["tr", 0]}
+    n["cell"] = {"content": "block+", "isolating": True, "parseDOM": [{"tag": "td"}], "toDOM": lambda _n: ["td", 0]}
     Z["table"] = {"nodes": n, "marks": _strip(basic_marks)}
 
     # Z9 marks on top-level blocks
@@ -103,6 +104,16 @@ def build_specs(basic_nodes: dict, basic_marks: dict, list_nodes: dict) -> dict:
             "em": {},
         },
     }
+    # Z-ctx: list schema + a `note` block whose parse rule is restricted by a context expression
+    for cid, ctx in (("ctx_bq", "blockquote/"), ("ctx_li", "list_item/"), ("ctx_bq_any", "blockquote//"),
+                     ("ctx_alt", "doc/|list_item/"), ("ctx_grp", "block/")):
+        n = _strip(ln)
+        # any block may come first in a list item, so that a context-selected `note` can always be placed
+        n["list_item"] = {**n["list_item"], "content": "block+"}
+        n["note"] = {"content": "inline*", "group": "block",
+                     "parseDOM": [{"tag": "p", "context": ctx, "priority": 60}],
+                     "toDOM": lambda _n: ["p", {"class": "note"}, 0]}
+        Z[cid] = {"nodes": n, "marks": _strip(basic_marks), "context": ctx}
     return Z
 
 
